@@ -182,8 +182,8 @@ var ledgerTable = map[string]ledgerEntry{
 	"app.(*processTransaction).transitInputs/sub-token": {acct: "tx.Inputs[*].From", tok: "tx.TokenAddress", amt: "tx.Inputs[*].Value", db: "tx.State", why: "debit of a checked input (details: transitInputs rules)"},
 	"app.(*processTransaction).transitOutputs/add-token": {acct: "tx.Outputs[*].To", tok: "tx.TokenAddress", amt: "tx.Outputs[*].Amount", db: "tx.State",
 		guards: []string{"eq(tx.Outputs[*].Type,\"aout\")"}, why: "credit of a plain account output"},
-	"app.(*processTransaction).refundGas/add-token": {acct: "tx.RefundAddr", tok: "tx.TokenAddress", amt: "big.NewInt(0)", db: "tx.State",
-		guards: []string{"!eq(vmerr,nil)", "eq(tx.Type,*)"}, why: "failed confidential->account transaction: the account side that was reverted is returned to the refund address"},
+	"app.(*processTransaction).refundGas/add-token": {acct: "tx.RefundAddr", tok: "tx.TokenAddress", amt: "*", db: "tx.State",
+		guards: []string{"!eq(vmerr,nil)", "eq(tx.Type,*)"}, why: "failed confidential->account transaction: the account side that was reverted is returned to the refund address (amount: account outputs minus account inputs, checked by value-ledger/refund/*)"},
 	// --- VM primitives
 	"vm/evm.UnsafeTransfer/add-token":  {acct: "recipient", tok: "token", amt: "amount", db: "db", why: "credit-only primitive of the depth-0 entry (inputs already debited by the transaction layer); callers checked separately"},
 	"vm/wasm.UnsafeTransfer/add-token": {acct: "recipient", tok: "token", amt: "amount", db: "db", why: "credit-only primitive of the depth-0 entry; callers checked separately"},
